@@ -11,6 +11,7 @@ import (
 	"fmt"
 	"os"
 	"path/filepath"
+	"reflect"
 	"sort"
 	"sync"
 	"sync/atomic"
@@ -23,6 +24,7 @@ import (
 	"github.com/nspcc-dev/neo-go/pkg/core/block"
 	"github.com/nspcc-dev/neo-go/pkg/core/storage"
 	"github.com/nspcc-dev/neo-go/pkg/crypto/keys"
+	"github.com/nspcc-dev/neo-go/pkg/network"
 	"github.com/nspcc-dev/neo-go/pkg/network/extpool"
 	npayload "github.com/nspcc-dev/neo-go/pkg/network/payload"
 	"github.com/nspcc-dev/neo-go/pkg/util"
@@ -203,6 +205,9 @@ type node struct {
 	srv     consensus.Service
 	tm      *fakeTimer
 	pool    *extpool.Pool
+	server  *network.Server // the node's real P2P server: transaction requests and deliveries
+	port    int
+	peer    *p2pPeer // the harness' connection to that server
 	barrier chan struct{}
 	verbose bool
 
@@ -367,6 +372,11 @@ func newCluster(dir string, o clusterOpts) (*cluster, error) {
 		}
 		nd.pool = extpool.New(nd.bc, 100, func([]util.Uint256) {})
 		lg := zap.New(&barrierCore{n: nd}, zap.WithFatalHook(zapcore.WriteThenPanic))
+		server, port, err := newServer(nd, zap.NewNop())
+		if err != nil {
+			return nil, err
+		}
+		nd.server, nd.port = server, port
 		srv, err := consensus.NewService(consensus.Config{
 			Logger: lg,
 			Broadcast: func(e *npayload.Extensible) {
@@ -377,16 +387,20 @@ func newCluster(dir string, o clusterOpts) (*cluster, error) {
 			Chain:                 nd.bc,
 			BlockQueue:            blockQueuer{nd},
 			ProtocolConfiguration: nd.bc.GetConfig().ProtocolConfiguration,
+			// cli/server mkConsensus: RequestTx: serv.RequestTx, StopTxFlow: serv.StopTxFlow. The
+			// wrappers only take a copy for the scheduler and pass dBFT's own slice through.
 			RequestTx: func(h ...util.Uint256) {
 				ndd.mu.Lock()
 				ndd.requested = append([]util.Uint256(nil), h...)
 				ndd.reqCalls++
 				ndd.mu.Unlock()
+				server.RequestTx(h...)
 			},
 			StopTxFlow: func() {
 				ndd.mu.Lock()
 				ndd.requested = nil
 				ndd.mu.Unlock()
+				server.StopTxFlow()
 			},
 			Wallet: config.Wallet{Path: walletFor(dir, ki), Password: walletPass},
 		})
@@ -395,6 +409,7 @@ func newCluster(dir string, o clusterOpts) (*cluster, error) {
 		}
 		consensus.VerifSetTimer(srv, nd.tm)
 		nd.srv = srv
+		server.AddConsensusService(srv, srv.OnPayload, srv.OnTransaction)
 	}
 	return c, nil
 }
@@ -410,7 +425,9 @@ func newChain(cfg config.Blockchain, lg *zap.Logger) (*core.Blockchain, error) {
 
 func (c *cluster) start() error {
 	for _, nd := range c.nodes {
-		nd.srv.Start()
+		if err := nd.start(); err != nil {
+			return err
+		}
 	}
 	for _, nd := range c.nodes {
 		if err := nd.sync(); err != nil {
@@ -422,9 +439,52 @@ func (c *cluster) start() error {
 
 func (c *cluster) close() {
 	for _, nd := range c.nodes {
+		if nd.peer != nil {
+			nd.peer.conn.Close()
+		}
+		nd.server.Shutdown()
 		nd.srv.Shutdown()
 		nd.bc.Close()
 	}
+}
+
+// start brings up the node's server (which starts the consensus service: MinPeers = 0 means "in
+// sync") and connects the harness peer to it.
+func (n *node) start() error {
+	n.server.Start()
+	n.srv.Start() // no-op when the server has started it
+	port, err := listenPort(n.server)
+	if err != nil {
+		return fmt.Errorf("node %d: %w", n.idx, err)
+	}
+	n.port = port
+	p, err := dialPeer(n.port, uint32(1000+n.idx), n.cl.sr)
+	if err != nil {
+		return fmt.Errorf("node %d: %w", n.idx, err)
+	}
+	n.peer = p
+	return waitHandshaked(n.server)
+}
+
+// pending tells how many items wait in the service's input channels (read through reflection:
+// the service type is not exported). -1 when the fields cannot be found.
+func (n *node) pending() int {
+	v := reflect.ValueOf(n.srv)
+	if v.Kind() == reflect.Pointer {
+		v = v.Elem()
+	}
+	if v.Kind() != reflect.Struct {
+		return -1
+	}
+	total := 0
+	for _, f := range []string{"messages", "transactions"} {
+		ch := v.FieldByName(f)
+		if !ch.IsValid() || ch.Kind() != reflect.Chan {
+			return -1
+		}
+		total += ch.Len()
+	}
+	return total
 }
 
 var errSync = errors.New("service did not become quiescent")
@@ -450,6 +510,7 @@ func (n *node) sentinel() *npayload.Extensible {
 func (n *node) sync() error {
 	deadline := time.Now().Add(90 * time.Second)
 	resetBy := time.Now().Add(20 * time.Second)
+	drained, rounds := false, 0
 	for {
 		// drain stale barrier tokens
 		for {
@@ -467,6 +528,21 @@ func (n *node) sync() error {
 		case <-n.barrier:
 		case <-time.After(time.Until(deadline)):
 			return errSync
+		}
+		// The barrier travels through the payload channel; a transaction handed over by the
+		// server waits in another one and the loop's select picks at random. Only when both are
+		// empty does one more barrier prove that everything dequeued before it has been handled.
+		pend := n.pending()
+		switch {
+		case pend > 0:
+			drained = false
+			continue
+		case pend == 0 && !drained:
+			drained = true
+			continue
+		case pend < 0 && rounds < 6: // field names changed: fall back on repeated barriers
+			rounds++
+			continue
 		}
 		// dBFT must be working on the height after the ledger's tip.
 		_, th, _, _ := n.tm.state()
